@@ -64,11 +64,13 @@ extern "C" int harness_main()
 		simulation s(cfg);
 		asio::io_context& tios = s.get_io_context();
 		std::shared_ptr<dropper> drp = std::make_shared<dropper>(2, 2);
+		drp->only_overhead = 40;   // fault TCP segments only
 		cfg.out[AA].append(std::make_shared<tap>(0));
 		cfg.out[AA].append(std::static_pointer_cast<sink>(drp));
 		cfg.out[BA].append(std::make_shared<tap>(1));
 		long const lat_choice[3] = {1000000L, 1500000000L, 4295000123000L};   // 1 ms, 1.5 s, beyond 2^32 us
-		cfg.net.append(std::make_shared<queue>(tios, 0, duration(lat_choice[vp_choose(3)]), 0, "net"));
+		long const lat_ns = lat_choice[vp_choose(3)];
+		cfg.net.append(std::make_shared<queue>(tios, 0, duration(lat_ns), 0, "net"));
 		asio::io_context aios(s, AA), bios(s, BA);
 		s.log_pcap("vp_capture.pcap");
 		error_code ec;
@@ -90,12 +92,19 @@ extern "C" int harness_main()
 		tcp::acceptor acc(bios);
 		acc.open(tcp::v4(), ec); acc.bind(tcp::endpoint(BA, 7000), ec); acc.listen(5, ec);
 		tcp::socket srv(bios), cli(aios);
+		asio::high_resolution_timer close_timer(tios);
 		static unsigned char tdata[LEN]; static unsigned char rbuf[16];
 		for (int i = 0; i < LEN; ++i) tdata[i] = vp_sym_byte();
 		int written = 0, received = 0; bool eof = false;
 		std::function<void()> write_more = [&]()
 		{
-			if (written >= LEN) { cli.close(ec); return; }
+			if (written >= LEN)
+			{
+				// leave time for acknowledgements and retransmissions before closing
+				close_timer.expires_after(duration(3 * lat_ns + 1000000));
+				close_timer.async_wait([&](error_code const&) { cli.close(ec); });
+				return;
+			}
 			cli.async_write_some(asio::buffer(tdata + written, std::size_t(LEN - written)), [&](error_code const& e, std::size_t n) { if (e) return; written += int(n); write_more(); });
 		};
 		std::function<void()> read_more = [&]()
